@@ -193,14 +193,20 @@ CLAIMED = {
         technique="Lean 4 proof over a hand-written model + bit-exact differential correspondence + oracle",
         ref="§5 C16"),
     "C20": dict(
-        text="Differential runs of the real MultiProcessMediator (fork) against the SingleProcessMediator with identical per-handler random "
+        text="Lean 4 model of the multi-process mediator's stage machine (mediator stage, worker program counter, pipe contents, stored "
+             "out-states; one leg = send, receive loop under an adversarial list of wait results, commit, trash) with theorems for all "
+             "core counts/handler sets/adversaries: the receive loop terminates within 2*|created| waits and raises nothing, stage "
+             "invariant (activatable handlers are idle; no 'not ready' / 'already finished'), no stale pre-computed out-state survives a "
+             "trash, and mp_refines_sp: the committed sequence equals the single-process one. Trace validation: every recorded leg of real "
+             "multi-process runs replayed in the model (stages, stored out-states, push order). Differential runs of the real MultiProcessMediator (fork) against the SingleProcessMediator with identical per-handler random "
              "streams, for several core counts and seeded adversarial schedules (connection.wait replaced by a shim that returns a "
              "seeded ordered sub-list of in-flight pipes): every leg compared bit for bit (handler, candidate times, out-state, global "
-             "state, trash list, samples); no worker alive after post_run; a run that does not finish is a deadlock. Lean model of the "
-             "stage machine and its refinement theorem: see theorem module (in progress).",
+             "state, trash list, samples); no worker alive after post_run; a run that does not finish is a deadlock.",
         note="OS-level behaviour (pipes, events, lost wake-ups, reaping) is exercised, not modelled. Quantifier: configurations whose "
-             "pre-computable out-states draw no random numbers.",
-        technique="Lean 4 stage-machine model (in progress) + schedule-controlled differential runs against the single-process mediator",
+             "pre-computable out-states draw no random numbers. Known finding: when two handlers started in one leg report EQUAL candidate "
+             "times the commit depends on the arrival order (schedulers return the first pushed); the refinement theorem carries the "
+             "no-tie hypothesis (counterexample theorem tie_breaks_refinement).",
+        technique="Lean 4 proof (stage-machine refinement) + trace validation + schedule-controlled differential runs against the single-process mediator",
         ref="§5 C20"),
     "C02": dict(
         text="Lean 4 theorems over R: 'accumulated uphill energy' is the positive variation uphill f 0 d; inverse power (repulsive/attractive): "
@@ -230,6 +236,19 @@ CLAIMED = {
              "asserts plus the one-chain fact of C07.",
         technique="Lean 4 proof (invariant by induction) over a hand-written model + bit-exact replay of recorded real runs + run-level oracle",
         ref="§5 C12, §4"),
+    "C04": dict(
+        text="Lean 4 theorems: decision kernel (both comparison styles accept exactly draws below max(0,q)), the accepting set of random() has "
+             "Lebesgue measure max(0,q)/b, thinned rate b*(q+/b)=q+, summed bound dominates, an unconfirmed event returns the proposal state "
+             "unchanged with no lifting insert (for every scalar type, so also binary64), the lifting table sums to zero; the 1/r bound: "
+             "positivity iff, reduction of domination to unit charges on the positive half. Correspondence: all six real handlers' "
+             "send_out_state vs the model bit for bit (decision, warning, uniform limit, potential calls, lifting inserts, out-state) over "
+             "all rate regimes and draw classes; C 1/r routine bit-exact. DOMINATION (bound >= true rate everywhere, margin 1e-4) is a "
+             "hypothesis of the theorems and is searched numerically on the freshly compiled C routines (corners/edges down to 1e-8 L, "
+             "multi-start, both charge signs; supremum 0.999902); run level: every (bound, true, draw) of real thinned events re-derived.",
+        note="PARTIAL: Dominates for the real Ewald derivative with prefactor 1.5837 cannot be proved in Lean here (DESIGN §10): the theorems "
+             "leaf/summed_one_over_r_sound_partial carry it as a hypothesis; a ratio > 1 found by the search is a concrete failing input.",
+        technique="Lean 4 proof of the decision logic over a hand-written model + bit-exact differential correspondence + numerical domination search",
+        ref="§5 C04, §10"),
 }
 
 PENDING_REASON = "check not built yet in this session (work in progress; see DESIGN.md §9 for the order)"
